@@ -5,7 +5,9 @@ ENTRY = dict(
         title="Cut finding is reproducible under a seed and independent of call history",
         prop_file="Properties/C09.v",
         corr_files=["Corr/C09Corr.v"],
-        theorems=["c09_inf_is_exact", "c09_finite_exact_threshold", "c09_invalid_num_samples_exact",
+        theorems=["c09_registry_yields_search_actions", "c09_seeded_search_model", "c09_search_model_any_tape",
+                  "c09_seeded_same_everywhere", "c09_import_state_reachable", "c09_smallest_probability_nonneg",
+                  "c09_inf_is_exact", "c09_finite_exact_threshold", "c09_invalid_num_samples_exact",
                   "c09_greedy_writes_identity", "c09_registries_invariant", "c09_registries_invariant_history",
                   "c09_rng_untouched", "c09_state_untouched", "c09_state_untouched_history", "c09_py_never_written",
                   "c09_np_only_writer", "c09_history_independent", "c09_rng_independent", "c09_seeded",
@@ -59,6 +61,10 @@ ENTRY = dict(
             "observation (outside the quantifier): partition_problem names the registers of its subcircuits through Qiskit's process-global counter of "
             "anonymous registers (utils/transforms.py QuantumRegister(bits=...)), so these NAMES depend on the call history; generate_cutting_experiments "
             "receives them as part of its arguments and is pure in them",
+            "observation (outside the documented argument types): ObservableCollection given a non-PauliList iterable (list[Pauli] inside a dict of "
+            "observables) de-duplicates with PauliList(set(observables)); Pauli.__hash__ is a string hash, so the ORDER of the commuting groups then "
+            "depends on PYTHONHASHSEED of the interpreter. With the documented PauliList arguments (.unique()) the order is hash independent; the "
+            "fresh interpreters of the harness run under several hash seeds (seeded change C09-r3-1 is caught that way)",
             "the different variants of a family are compared with each other through the shared fresh-interpreter table (two histories that disagree "
             "with each other cannot both agree with it), not pairwise",
             "not modelled because unreachable from the three calls: the scalar group_name branch of ActionNames.define_action and "
